@@ -211,3 +211,36 @@ func errStr(e error) string {
 }
 
 func caseID(prefix string, i int) string { return fmt.Sprintf("%s/%d", prefix, i) }
+
+// hostilePrelude drives the rest of the public API with unusual but legal inputs BEFORE a monitor
+// starts judging its own property, in the same process: crafted verifications ((r+s) mod n tiny, s
+// tiny, keys G / -G / same x other y), signing with short key encodings and with keys that are tails
+// of one another, ZA with odd ids. Results are not judged here (their own properties do that); the
+// point is that state left behind by one entry point must not change what another one returns.
+func hostilePrelude(rng *hk.RNG) {
+	defer func() { recover() }()
+	Ps := []ref.Pt{ref.G(), ref.G().Neg(), refPub(bi(2)), refPub(randScalar(rng))}
+	Ps = append(Ps, Ps[3].Neg())
+	for _, P := range Ps {
+		px, py := ref.B32(P.X), ref.B32(P.Y)
+		for _, tv := range []*big.Int{bi(1), bi(2), bi(5000), bi(8191), new(big.Int).Lsh(bi(1), 13), randScalar(rng)} {
+			for _, sv := range []*big.Int{bi(1), new(big.Int).Lsh(bi(1), 17), new(big.Int).Lsh(bi(1), 200), randScalar(rng)} {
+				rr := ref.ModN(new(big.Int).Sub(tv, sv))
+				if rr.Sign() == 0 {
+					continue
+				}
+				VerifyHashed(px, py, rng.Bytes(32), ref.B32(rr), ref.B32(sv))
+			}
+		}
+		Verify([]byte("1234567812345678"), px, py, []byte("m"), ref.B32(bi(7)), ref.B32(bi(9)))
+		CheckOnCurve(px, py)
+		ZA(rng.Bytes(rng.Intn(70)), px, py)
+	}
+	a := ref.B32(randScalar(rng))
+	a[0] |= 1
+	for _, k := range [][]byte{a, a[1:], a[5:], append([]byte{0}, a[1:]...), a} {
+		SignHashed(newScript(rng.Bytes(96)), k, rng.Bytes(32))
+		DerivePublic(a)
+	}
+	GenerateKey(newScript(append(make([]byte, 32), rng.Bytes(64)...)))
+}
